@@ -24,11 +24,11 @@ theorem subst1_not_occ (v : Variant) (hv : v.sound) (i : Sym) (r : Expr) :
       simp [subst1, hr, subst1List_not_occ v hv i r es (by simpa [syms] using h)]
   | .psum b ixs, h => by
       have hp : v.poolSumProtectsBound = true := hv.2
-      have h' : i ∉ names ixs ∧ i ∉ syms b := by simpa [syms] using h
+      have h' : i ∉ names ixs ∧ i ∉ symsBinders ixs ∧ i ∉ syms b := by simpa [syms, not_or] using h
       by_cases hx : (names ixs).contains i = true
       · simp only [subst1, hp, hx, if_true]
       · simp only [subst1, hp, hx, if_true]
-        simp [subst1_not_occ v hv i r b h'.2]
+        simp [subst1_not_occ v hv i r b h'.2.2, subst1Binders_not_occ v hv i r ixs h'.2.1]
   | .idx f es, h => by simp [subst1, subst1List_not_occ v hv i r es (by simpa [syms] using h)]
 theorem subst1List_not_occ (v : Variant) (hv : v.sound) (i : Sym) (r : Expr) :
     ∀ es : List Expr, i ∉ symsList es → subst1List v i r es = es
@@ -36,6 +36,12 @@ theorem subst1List_not_occ (v : Variant) (hv : v.sound) (i : Sym) (r : Expr) :
   | e :: es, h => by
       have h' : i ∉ syms e ∧ i ∉ symsList es := by simpa [symsList] using h
       simp [subst1List, subst1_not_occ v hv i r e h'.1, subst1List_not_occ v hv i r es h'.2]
+theorem subst1Binders_not_occ (v : Variant) (hv : v.sound) (i : Sym) (r : Expr) :
+    ∀ ixs : List (Sym × List Expr), i ∉ symsBinders ixs → subst1Binders v i r ixs = ixs
+  | [], _ => by simp [subst1Binders]
+  | (j, pool) :: rest, h => by
+      have h' : i ∉ symsList pool ∧ i ∉ symsBinders rest := by simpa [symsBinders] using h
+      simp [subst1Binders, subst1List_not_occ v hv i r pool h'.1, subst1Binders_not_occ v hv i r rest h'.2]
 end
 
 theorem subst1_psum_mem (v : Variant) (hv : v.sound) (x : Sym) (a b : Expr) (ixs : List Binder)
@@ -45,65 +51,97 @@ theorem subst1_psum_mem (v : Variant) (hv : v.sound) (x : Sym) (a b : Expr) (ixs
   simp only [subst1, hp, hx, if_true]
 
 theorem subst1_psum_not_mem (v : Variant) (hv : v.sound) (x : Sym) (a b : Expr) (ixs : List Binder)
-    (h : x ∉ names ixs) : subst1 v x a (.psum b ixs) = .psum (subst1 v x a b) ixs := by
+    (h : x ∉ names ixs) :
+    subst1 v x a (.psum b ixs) = .psum (subst1 v x a b) (subst1Binders v x a ixs) := by
   have hp : v.poolSumProtectsBound = true := hv.2
   have hx : ¬ (names ixs).contains x = true := by simpa using h
   simp only [subst1, hp, hx, if_true]
   simp
 
-/-! ### two substitutions commute -/
+/-! ### two substitutions commute
+
+`e[i ↦ w][x ↦ a] = e[x ↦ a][i ↦ w[x ↦ a]]` when `i ≠ x`, `a` does not mention `i`, and `w` does
+not mention `x` wherever `x` is bound inside `e` (no capture). -/
 
 mutual
-theorem subst1_comm (v : Variant) (hv : v.sound) (i : Sym) (q : Q) (x : Sym) (a : Expr)
+theorem subst1_comm (v : Variant) (hv : v.sound) (i : Sym) (w : Expr) (x : Sym) (a : Expr)
     (hix : i ≠ x) (hia : i ∉ syms a) :
-    ∀ e : Expr, subst1 v i (.rat q) (subst1 v x a e) = subst1 v x a (subst1 v i (.rat q) e)
-  | .sym s => by
+    ∀ e : Expr, (x ∈ bound e → x ∉ syms w) →
+      subst1 v i (subst1 v x a w) (subst1 v x a e) = subst1 v x a (subst1 v i w e)
+  | .sym s, _ => by
       by_cases hsx : s = x
       · have hsi : s ≠ i := fun h => hix (h.symm.trans hsx)
-        simp [subst1, hsx, hsi, subst1_not_occ v hv i (.rat q) a hia, Ne.symm hix]
+        simp [subst1, hsx, subst1_not_occ v hv i _ a hia, Ne.symm hix]
       · by_cases hsi : s = i
-        · simp [subst1, hsx, hsi, hix]
+        · simp [subst1, hsi, hix]
         · simp [subst1, hsx, hsi]
-  | .rat r => by simp [subst1]
-  | .add es => by simp [subst1, subst1List_comm v hv i q x a hix hia es]
-  | .mul es => by simp [subst1, subst1List_comm v hv i q x a hix hia es]
-  | .pow b n => by simp [subst1, subst1_comm v hv i q x a hix hia b]
-  | .app f es => by simp [subst1, subst1List_comm v hv i q x a hix hia es]
-  | .node c es t => by
+  | .rat r, _ => by simp [subst1]
+  | .add es, h => by simp [subst1, subst1List_comm v hv i w x a hix hia es (by simpa [bound] using h)]
+  | .mul es, h => by simp [subst1, subst1List_comm v hv i w x a hix hia es (by simpa [bound] using h)]
+  | .pow b n, h => by simp [subst1, subst1_comm v hv i w x a hix hia b (by simpa [bound] using h)]
+  | .app f es, h => by simp [subst1, subst1List_comm v hv i w x a hix hia es (by simpa [bound] using h)]
+  | .node c es t, h => by
       have hr : v.getArgsRecursive = false := hv.1
-      simp [subst1, hr, subst1List_comm v hv i q x a hix hia es]
-  | .psum b ixs => by
+      simp [subst1, hr, subst1List_comm v hv i w x a hix hia es (by simpa [bound] using h)]
+  | .psum b ixs, h => by
+      have hb : x ∈ bound b → x ∉ syms w := fun hx => h (by simp [bound, hx])
+      have hbb : x ∈ boundBinders ixs → x ∉ syms w := fun hx => h (by simp [bound, hx])
       by_cases h1 : x ∈ names ixs <;> by_cases h2 : i ∈ names ixs
       · rw [subst1_psum_mem v hv x a b ixs h1, subst1_psum_mem v hv i _ b ixs h2,
-          subst1_psum_mem v hv x a b ixs h1]
-      · rw [subst1_psum_mem v hv x a b ixs h1, subst1_psum_not_mem v hv i _ b ixs h2,
-          subst1_psum_mem v hv x a _ ixs h1]
-      · rw [subst1_psum_not_mem v hv x a b ixs h1, subst1_psum_mem v hv i _ _ ixs h2,
+          subst1_psum_mem v hv i _ b ixs h2, subst1_psum_mem v hv x a b ixs h1]
+      · have hxw : x ∉ syms w := h (by simp [bound, h1])
+        rw [subst1_psum_mem v hv x a b ixs h1, subst1_not_occ v hv x a w hxw,
+          subst1_psum_not_mem v hv i _ b ixs h2,
+          subst1_psum_mem v hv x a _ _ (by rw [names_subst1Binders]; exact h1)]
+      · rw [subst1_psum_not_mem v hv x a b ixs h1,
+          subst1_psum_mem v hv i _ _ _ (by rw [names_subst1Binders]; exact h2),
           subst1_psum_mem v hv i _ b ixs h2, subst1_psum_not_mem v hv x a b ixs h1]
-      · rw [subst1_psum_not_mem v hv x a b ixs h1, subst1_psum_not_mem v hv i _ _ ixs h2,
-          subst1_psum_not_mem v hv i _ b ixs h2, subst1_psum_not_mem v hv x a _ ixs h1,
-          subst1_comm v hv i q x a hix hia b]
-  | .idx f es => by simp [subst1, subst1List_comm v hv i q x a hix hia es]
-theorem subst1List_comm (v : Variant) (hv : v.sound) (i : Sym) (q : Q) (x : Sym) (a : Expr)
+      · rw [subst1_psum_not_mem v hv x a b ixs h1,
+          subst1_psum_not_mem v hv i _ _ _ (by rw [names_subst1Binders]; exact h2),
+          subst1_psum_not_mem v hv i _ b ixs h2,
+          subst1_psum_not_mem v hv x a _ _ (by rw [names_subst1Binders]; exact h1),
+          subst1_comm v hv i w x a hix hia b hb, subst1Binders_comm v hv i w x a hix hia ixs hbb]
+  | .idx f es, h => by simp [subst1, subst1List_comm v hv i w x a hix hia es (by simpa [bound] using h)]
+theorem subst1List_comm (v : Variant) (hv : v.sound) (i : Sym) (w : Expr) (x : Sym) (a : Expr)
     (hix : i ≠ x) (hia : i ∉ syms a) :
-    ∀ es : List Expr,
-      subst1List v i (.rat q) (subst1List v x a es) = subst1List v x a (subst1List v i (.rat q) es)
-  | [] => by simp [subst1List]
-  | e :: es => by
-      simp [subst1List, subst1_comm v hv i q x a hix hia e, subst1List_comm v hv i q x a hix hia es]
+    ∀ es : List Expr, (x ∈ boundList es → x ∉ syms w) →
+      subst1List v i (subst1 v x a w) (subst1List v x a es) = subst1List v x a (subst1List v i w es)
+  | [], _ => by simp [subst1List]
+  | e :: es, h => by
+      simp [subst1List, subst1_comm v hv i w x a hix hia e (fun hx => h (by simp [boundList, hx])),
+        subst1List_comm v hv i w x a hix hia es (fun hx => h (by simp [boundList, hx]))]
+theorem subst1Binders_comm (v : Variant) (hv : v.sound) (i : Sym) (w : Expr) (x : Sym) (a : Expr)
+    (hix : i ≠ x) (hia : i ∉ syms a) :
+    ∀ ixs : List (Sym × List Expr), (x ∈ boundBinders ixs → x ∉ syms w) →
+      subst1Binders v i (subst1 v x a w) (subst1Binders v x a ixs)
+        = subst1Binders v x a (subst1Binders v i w ixs)
+  | [], _ => by simp [subst1Binders]
+  | (j, pool) :: rest, h => by
+      simp [subst1Binders, subst1List_comm v hv i w x a hix hia pool (fun hx => h (by simp [boundBinders, hx])),
+        subst1Binders_comm v hv i w x a hix hia rest (fun hx => h (by simp [boundBinders, hx]))]
 end
 
-theorem substSeq_comm (v : Variant) (hv : v.sound) (x : Sym) (a : Expr) (c : List (Sym × Q)) :
-    ∀ e : Expr, (∀ p ∈ c, p.1 ≠ x ∧ p.1 ∉ syms a) →
-      substSeq v (litPairs c) (subst1 v x a e) = subst1 v x a (substSeq v (litPairs c) e) := by
+/-- the pairs of a replacement sequence with `x ↦ a` applied to every value. -/
+def mapVals (v : Variant) (x : Sym) (a : Expr) (c : List (Sym × Expr)) : List (Sym × Expr) :=
+  c.map (fun p => (p.1, subst1 v x a p.2))
+
+theorem substSeq_comm (v : Variant) (hv : v.sound) (x : Sym) (a : Expr) (c : List (Sym × Expr)) :
+    ∀ e : Expr, (∀ p ∈ c, p.1 ≠ x ∧ p.1 ∉ syms a ∧ noPsum p.2 = true ∧ (x ∈ bound e → x ∉ syms p.2)) →
+      substSeq v (mapVals v x a c) (subst1 v x a e) = subst1 v x a (substSeq v c e) := by
   induction c with
-  | nil => intro e _; simp [litPairs, substSeq]
+  | nil => intro e _; simp [mapVals, substSeq]
   | cons p c ih =>
     intro e h
-    obtain ⟨i, q⟩ := p
-    have hp := h (i, q) List.mem_cons_self
-    rw [substSeq_litPairs_cons, substSeq_litPairs_cons, subst1_comm v hv i q x a hp.1 hp.2,
-      ih _ (fun p hp => h p (List.mem_cons_of_mem _ hp))]
+    obtain ⟨i, w⟩ := p
+    have hp := h (i, w) List.mem_cons_self
+    have : mapVals v x a ((i, w) :: c) = (i, subst1 v x a w) :: mapVals v x a c := by simp [mapVals]
+    rw [this, substSeq_cons, substSeq_cons, subst1_comm v hv i w x a hp.1 hp.2.1 e hp.2.2.2]
+    apply ih
+    intro q hq
+    have := h q (List.mem_cons_of_mem _ hq)
+    refine ⟨this.1, this.2.1, this.2.2.1, ?_⟩
+    rw [bound_subst1 v hv i w (bound_of_noPsum w hp.2.2.1)]
+    exact this.2.2.2
 
 theorem subst1List_map {α : Type} (v : Variant) (x : Sym) (a : Expr) (l : List α) (f : α → Expr) :
     subst1List v x a (l.map f) = l.map (fun c => subst1 v x a (f c)) := by
@@ -111,7 +149,12 @@ theorem subst1List_map {α : Type} (v : Variant) (x : Sym) (a : Expr) (l : List 
   | nil => simp [subst1List]
   | cons c l ih => simp [subst1List, ih]
 
-theorem assignments_keys (ixs : List Binder) :
+theorem subst1List_eq_map (v : Variant) (x : Sym) (a : Expr) (l : List Expr) :
+    subst1List v x a l = l.map (fun e => subst1 v x a e) := by
+  have := subst1List_map v x a l id
+  simpa using this
+
+theorem assignments_keys {α : Type} (ixs : List (Sym × List α)) :
     ∀ c ∈ assignments ixs, ∀ p ∈ c, p.1 ∈ names ixs := by
   induction ixs with
   | nil => intro c hc p hp; simp [assignments] at hc; subst hc; simp at hp
@@ -124,6 +167,18 @@ theorem assignments_keys (ixs : List Binder) :
     rcases List.mem_cons.mp hp with h | h
     · subst h; simp
     · exact List.mem_cons_of_mem _ (ih c' hc' p h)
+
+/-- `itertools.product` over substituted pools = the substituted combinations. -/
+theorem assignments_subst1Binders (v : Variant) (x : Sym) (a : Expr) :
+    ∀ ixs : List Binder,
+      assignments (subst1Binders v x a ixs) = (assignments ixs).map (mapVals v x a)
+  | [] => by simp [subst1Binders, assignments, mapVals]
+  | (i, pool) :: rest => by
+      simp only [subst1Binders, assignments]
+      rw [assignments_subst1Binders v x a rest, subst1List_eq_map, List.flatMap_map, List.map_flatMap]
+      congr 1
+      funext w
+      simp [List.map_map, Function.comp_def, mapVals]
 
 /-! ### `xreplace` with the empty map -/
 
@@ -140,11 +195,16 @@ theorem xreplace_nil (v : Variant) (hv : v.sound) : ∀ e : Expr, xreplace v e [
       simp [xreplace, hr, xreplaceList_nil v hv es]
   | .psum b ixs => by
       have hp : v.poolSumProtectsBound = true := hv.2
-      simp [xreplace, hp, xreplace_nil v hv b]
+      simp [xreplace, hp, xreplace_nil v hv b, xreplaceBinders_nil v hv ixs]
   | .idx f es => by simp [xreplace, xreplaceList_nil v hv es]
 theorem xreplaceList_nil (v : Variant) (hv : v.sound) : ∀ es : List Expr, xreplaceList v es [] = es
   | [] => by simp [xreplaceList]
   | e :: es => by simp [xreplaceList, xreplace_nil v hv e, xreplaceList_nil v hv es]
+theorem xreplaceBinders_nil (v : Variant) (hv : v.sound) :
+    ∀ ixs : List (Sym × List Expr), xreplaceBinders v ixs [] = ixs
+  | [] => by simp [xreplaceBinders]
+  | (i, pool) :: rest => by
+      simp [xreplaceBinders, xreplaceList_nil v hv pool, xreplaceBinders_nil v hv rest]
 end
 
 /-! ### `doit` -/
